@@ -515,12 +515,15 @@ int main()
           if(plain == "none") {
             std::optional<SocketTcp> srvSock;
             if(sc.s->kind == "async") {
+              // (the loopback is shared with other programs: only OUR client's connection counts)
+              std::optional<Address> want;
               sc.accAsync.emplace(Acceptor(Address("127.0.0.1:0"), cert.c_str(), key.c_str()), *sc.ds,
-                                  [&srvSock](SocketTcp t, Address) { srvSock.emplace(std::move(t)); });
+                                  [&srvSock, &want](SocketTcp t, Address from) { if(want && from == *want) srvSock.emplace(std::move(t)); });
               vos::name_fd(sc.accAsync->impl->buff->sock->fd, "acc");
               auto addr = sc.accAsync->LocalAddress();
               SocketTcp cli(addr, cert.c_str(), key.c_str());
-              for(int i = 0; i < 10 && !srvSock; ++i) sc.ds->Step(Duration(0));
+              want = cli.LocalAddress();
+              for(int i = 0; i < 50 && !srvSock; ++i) sc.ds->Step(Duration(0));
               if(!srvSock) throw std::runtime_error("async accept did not happen");
               Wrap(sc, *sc.c, std::move(cli), sc.dc, dcn);
               Wrap(sc, *sc.s, std::move(*srvSock), sc.ds, dsn);
@@ -529,8 +532,10 @@ int main()
               (void)sc.acc->Listen(Duration(0));
               auto addr = sc.acc->LocalAddress();
               SocketTcp cli(addr, cert.c_str(), key.c_str());
+              auto want = cli.LocalAddress();
               auto r = sc.acc->Listen(Duration(0));
-              if(!r) throw std::runtime_error("accept did not happen");
+              for(int i = 0; i < 50 && r && !(r->second == want); ++i) r = sc.acc->Listen(Duration(0)); // foreign connection
+              if(!r || !(r->second == want)) throw std::runtime_error("accept did not happen");
               Wrap(sc, *sc.c, std::move(cli), sc.dc, dcn);
               Wrap(sc, *sc.s, std::move(r->first), sc.ds, dsn);
             }
@@ -538,10 +543,11 @@ int main()
           } else if(plain == "cli") {
             // the CLIENT is a plain TCP peer (raw socket owned by the harness), the server is TLS
             std::optional<SocketTcp> srvSock;
+            std::optional<Address> rawWant;
             Address addr;
             if(sc.s->kind == "async") {
               sc.accAsync.emplace(Acceptor(Address("127.0.0.1:0"), cert.c_str(), key.c_str()), *sc.ds,
-                                  [&srvSock](SocketTcp t, Address) { srvSock.emplace(std::move(t)); });
+                                  [&srvSock, &rawWant](SocketTcp t, Address from) { if(rawWant && from == *rawWant) srvSock.emplace(std::move(t)); });
               addr = sc.accAsync->LocalAddress();
             } else {
               sc.acc.emplace(Address("127.0.0.1:0"), cert.c_str(), key.c_str());
@@ -555,12 +561,17 @@ int main()
             sa.sin_addr.s_addr = htonl(INADDR_LOOPBACK);
             if(::connect(sc.rawFd, reinterpret_cast<sockaddr *>(&sa), sizeof(sa))) throw std::runtime_error("raw connect failed");
             vos::name_fd(sc.rawFd, "raw");
+            sockaddr_in me{};
+            socklen_t ml = sizeof(me);
+            ::getsockname(sc.rawFd, reinterpret_cast<sockaddr *>(&me), &ml);
+            rawWant = Address("127.0.0.1:" + std::to_string(ntohs(me.sin_port)));
             if(sc.s->kind == "async") {
-              for(int i = 0; i < 10 && !srvSock; ++i) sc.ds->Step(Duration(0));
+              for(int i = 0; i < 50 && !srvSock; ++i) sc.ds->Step(Duration(0));
               if(!srvSock) throw std::runtime_error("async accept did not happen");
             } else {
               auto r = sc.acc->Listen(Duration(0));
-              if(!r) throw std::runtime_error("accept did not happen");
+              for(int i = 0; i < 50 && r && !(r->second == *rawWant); ++i) r = sc.acc->Listen(Duration(0));
+              if(!r || !(r->second == *rawWant)) throw std::runtime_error("accept did not happen");
               srvSock.emplace(std::move(r->first));
             }
             sc.c.reset();
